@@ -33,24 +33,20 @@ Definition holds_C05 (c : case) : bool :=
   match outcome c with OPanic => false | _ => true end &&
   (alloc c <=? alloc_a * plen c + alloc_b) && (millis c <=? time_limit_ms).
 
-(* Known finding 1: config.TagsUpdate pre-sizes its maps with the untrusted count (finding 2 below) *)
+(* Finding 1 (config.TagsUpdate sized its maps by the untrusted count) is repaired (c77169e): no exception.
+   Known finding 2: AvailableCommands.Decode is quadratic in the node count (redirect chains in random order). *)
 Definition judge (c : case) : verdict :=
   if holds_C05 c then
     match body c, find_entry (tname c) packets with
     | Some bs, Some (Fragment _ _ decl _) =>
+        (* when the model decodes the body completely the real decoder must return a packet as well
+           (the byte array readers are strict since 4d8a5a4: no divergence on empty trailing arrays any more) *)
         match dec_L LP decl (mkctx (cv c) (cb c)) bs, outcome c with
-        | Ok (t, []), OError =>
-            (* the one known divergence on complete bodies: an empty byte array at the very end (C04-2 / C03-2) *)
-            if is_lenpref_bytes (last_prim_v decl (mkctx (cv c) (cb c)) t) &&
-               match rev bs with 0 :: _ => true | _ => false end then VOk else VMismatch
+        | Ok (_, []), OError => VMismatch
         | _, _ => VOk
         end
     | _, _ => VOk
     end
-  else if String.eqb (tname c) "config.TagsUpdate" && negb (alloc c <=? alloc_a * plen c + alloc_b)
-          && match outcome c with OPanic => false | _ => true end && (millis c <=? time_limit_ms)
-  then VKnown 1
-  (* Known finding 2: AvailableCommands.Decode is quadratic in the node count (redirect chains in random order) *)
   else if String.eqb (tname c) "packet.AvailableCommands" && (500000 <=? plen c) && negb (millis c <=? time_limit_ms)
           && match outcome c with OPanic => false | _ => true end && (alloc c <=? alloc_a * plen c + alloc_b)
   then VKnown 2
